@@ -9,6 +9,14 @@ impl PartialOrdSpecImpl for Var {
     }
 }
 
+impl vstd::std_specs::convert::FromSpecImpl<bool> for Term {
+    open spec fn obeys_from_spec() -> bool { true }
+    open spec fn from_spec(v: bool) -> Self { if v { Term(1) } else { Term(0) } }
+}
+impl vstd::std_specs::convert::FromSpecImpl<usize> for Var {
+    open spec fn obeys_from_spec() -> bool { true }
+    open spec fn from_spec(v: usize) -> Self { Var(v) }
+}
 impl vstd::std_specs::convert::FromSpecImpl<(usize, usize)> for ModelCounts {
     open spec fn obeys_from_spec() -> bool { true }
     open spec fn from_spec(tuple: (usize, usize)) -> Self { ModelCounts { cmodels: tuple.0, models: tuple.1 } }
